@@ -28,6 +28,12 @@ package corr
 // transparent members (a member above that edits the header would change what passes through).  The same chain is
 // transparent on the read paths and for RTCP.  The bottom RTP writer may refuse chosen calls (`failrtp=`): a packet
 // that passed through is counted whatever happens to it further down.
+// The ambient may name the EPOCH of the injected clock (`epoch=zero|unix0|ntp0|y2000|ntpwrap|y2262`, an option private
+// to this component; class `epoch`): the clock reads epoch + the time the case has run.  "Whatever the clock's epoch":
+// counters do not depend on the clock at all, jitter depends on differences of clock readings only, and
+// LastPacketReceivedTimestamp is a clock reading, printed as its distance from the epoch — so the model, whose clock
+// starts in 2000, has nothing to learn.  The class sticks to traffic without LSR/DLSR/DLRR round trips: a round-trip
+// time is the difference between a clock reading and an NTP timestamp, which cannot express most of these epochs.
 // a=M: the attributes the *caller* passes: nil | fresh | stale (the map of the previous call,
 // still holding that call's parse cache).  The inner reader always returns a new empty map.
 // PKT: SR:ssrc:ntp:pc:oc:B  RR:ssrc:B  (B: `-` or blocks `ssrc/fl/tl/lsn/jit/lsr/dlsr` joined by +)
@@ -313,14 +319,36 @@ func c19bits(f float64) uint64 {
 	return math.Float64bits(f)
 }
 
-func c19stats(s *stats.Stats) string {
+// c19Epochs: the zero time.Time (year 1), the Unix and the NTP epoch, the harness's default, 16 s before NTP era 0
+// ends (2036-02-07 06:28:16 UTC) and 16 s before the last instant whose UnixNano fits an int64.
+var c19Epochs = map[string]time.Time{
+	"zero":    {},
+	"unix0":   time.Unix(0, 0),
+	"ntp0":    time.Date(1900, 1, 1, 0, 0, 0, 0, time.UTC),
+	"y2000":   time.Unix(0, c19Start),
+	"ntpwrap": time.Date(2036, 2, 7, 6, 28, 0, 0, time.UTC),
+	"y2262":   time.Date(2262, 4, 11, 23, 47, 0, 0, time.UTC),
+}
+
+var c19EpochNames = []string{"zero", "zero", "unix0", "ntp0", "y2000", "ntpwrap", "y2262"}
+
+func c19stats(s *stats.Stats) string { return c19statsAt(s, nil) }
+
+// c19statsAt: epoch != nil — clock readings (LastPacketReceivedTimestamp) are printed as c19Start + their distance
+// from the epoch of the injected clock.
+func c19statsAt(s *stats.Stats, epoch *time.Time) string {
 	if s == nil {
 		return "nil"
+	}
+	lts := c19time(s.InboundRTPStreamStats.LastPacketReceivedTimestamp)
+	if epoch != nil && (s.InboundRTPStreamStats.PacketsReceived > 0 || !s.InboundRTPStreamStats.LastPacketReceivedTimestamp.IsZero()) {
+		// (a packet received when the clock read the zero time.Time has that time as its timestamp)
+		lts = strconv.FormatInt(c19Start+int64(s.InboundRTPStreamStats.LastPacketReceivedTimestamp.Sub(*epoch)), 10)
 	}
 	i, o, ri, ro := s.InboundRTPStreamStats, s.OutboundRTPStreamStats, s.RemoteInboundRTPStreamStats, s.RemoteOutboundRTPStreamStats
 	return fmt.Sprintf("in pr=%d lost=%d jit=%d lts=%s hb=%d b=%d fir=%d pli=%d nack=%d | out ps=%d bs=%d hb=%d nack=%d fir=%d pli=%d"+
 		" | rin pr=%d lost=%d jit=%d rtt=%d trtt=%d fl=%d n=%d | rout ps=%d bs=%d ts=%s rs=%d rtt=%d trtt=%d n=%d",
-		i.PacketsReceived, i.PacketsLost, c19bits(i.Jitter), c19time(i.LastPacketReceivedTimestamp), i.HeaderBytesReceived, i.BytesReceived,
+		i.PacketsReceived, i.PacketsLost, c19bits(i.Jitter), lts, i.HeaderBytesReceived, i.BytesReceived,
 		i.FIRCount, i.PLICount, i.NACKCount,
 		o.PacketsSent, o.BytesSent, o.HeaderBytesSent, o.NACKCount, o.FIRCount, o.PLICount,
 		ri.PacketsReceived, ri.PacketsLost, c19bits(ri.Jitter), int64(ri.RoundTripTime), int64(ri.TotalRoundTripTime), c19bits(ri.FractionLost),
@@ -333,10 +361,23 @@ var errC19Read = errors.New("inner reader failed")
 
 func c19run(t *testing.T, ops []string, o *Out) {
 	now := c19Start
+	var epoch *time.Time
+	if o.Amb != nil && o.Amb.Opts["epoch"] != "" {
+		e, ok := c19Epochs[o.Amb.Opts["epoch"]]
+		if !ok {
+			panic("unknown epoch " + o.Amb.Opts["epoch"])
+		}
+		epoch = &e
+	}
 	lf := logging.NewDefaultLoggerFactory()
 	lf.DefaultLogLevel = logging.LogLevelDisabled
 	f, err := stats.NewInterceptor(
-		stats.SetNowFunc(func() time.Time { return time.Unix(0, now) }),
+		stats.SetNowFunc(func() time.Time {
+			if epoch != nil {
+				return epoch.Add(time.Duration(now - c19Start))
+			}
+			return time.Unix(0, now)
+		}),
 		stats.WithLoggerFactory(lf),
 	)
 	if err != nil {
@@ -510,7 +551,7 @@ func c19run(t *testing.T, ops []string, o *Out) {
 				o.P("bad-op")
 				continue
 			}
-			o.P("%s", c19stats(getter.Get(uint32(ssrc))))
+			o.P("%s", c19statsAt(getter.Get(uint32(ssrc)), epoch))
 		case "close":
 			_ = icpt.Close()
 		default:
@@ -853,7 +894,17 @@ func (g *c19gen) get() {
 //
 // Class `chain` (and a quarter of the other cases): the stats interceptor as a member of a chain, see the head of the file.
 func c19gencase(r *Rng, tier string, idx int) Case {
-	k := idx % 10
+	k := idx % 11
+	if k == 10 { // counts / wrap (jitter): traffic that knows the clock through differences of its readings only
+		cs := c19genplain(r, tier, r.Pick(0, 1, 1), false)
+		cs.Class = "epoch"
+		amb := ambWith(ambOp("", "", false, false, false, false), "epoch="+c19EpochNames[r.Intn(len(c19EpochNames))])
+		if r.Chance(1, 4) {
+			amb = ambWith(amb, ambShapes(r))
+		}
+		cs.Ops = append([]string{amb}, cs.Ops...)
+		return cs
+	}
 	if k == 8 {
 		cs := c19genplain(r, tier, r.Pick(0, 0, 1, 6, 7), true)
 		cs.Class = "padding"
@@ -866,7 +917,7 @@ func c19gencase(r *Rng, tier string, idx int) Case {
 		cs.Ops = c19chain(r, cs.Ops, true, "")
 		return cs
 	}
-	cs := c19genplain(r, tier, idx/10*8+k, false)
+	cs := c19genplain(r, tier, idx/11*8+k, false)
 	shapes := ""
 	if r.Chance(1, 4) {
 		shapes = ambShapes(r)
